@@ -85,6 +85,12 @@ def display_matrix(ck):
                     ls, cs, le, ce = ck.rng.randint(0, 9), ck.rng.randint(0, 60), ck.rng.randint(0, 9), ck.rng.randint(0, 60)
                 kind = ck.rng.choice(KINDS)
                 actual = ck.rng.choice(["3", '"a\\"b"', "None", "[1, 2]", "Étoile { x: 1 }", "2 element(s)"])
+                if ck.rng.random() < 0.2:
+                    # long values, ASCII and multi-byte, of lengths around every plausible cut-off; values with line breaks and escapes
+                    ch = ck.rng.choice(["a", "é", "日", "😀", "ж", "x日"])
+                    actual = ck.rng.choice(['"%s"', "[%s]", "S { name: \"%s\" }"]) % (ch * ck.rng.choice([30, 40, 41, 59, 60, 63, 64, 79, 80, 100, 119, 120, 121, 127, 128, 200, 255, 256, 1000]))
+                elif ck.rng.random() < 0.05:
+                    actual = ck.rng.choice(["line one\nline two", "\ttabbed", "", " ", "e\u0301", "\u200bzero-width", "a\rb", "\x1b[31mred\x1b[0m", "{}", "{:?}", "%s"])
                 exp = ck.rng.choice(["none", "none", hexs("x + 1"), hexs("2 entries")])
                 ents.append("%d %d %d %d %s %s %s" % (ls, cs, le, ce, kind, hexs(actual), exp))
             reqs.append("display %s %s 1 %s %d %s" % (hexs(scratch), hexs(fn), "none" if on_disk is None else hexs(on_disk), ne, " ".join(ents)))
